@@ -67,8 +67,10 @@ def run(ctx):
     slim = [{k: v for k, v in o.items() if k != "case"} for o in obs]
     ver = ctx.validate("Trace_TrackProgram", "Trace_TrackProgram.cfg", slim, per_shard_min=200)
     rej = sum(1 for v in ver if v.get("rejected"))
-    if not ctx.replay and (rej == 0 or rej == len(ver)):
-        raise core.MachineryError("vacuity: accepted and rejected tracks not both present")
+    # vacuity is judged on the inputs (not on what the code did): tracks with and without conflicting programs
+    conflicting = sum(1 for o in obs if len({m["p"] for b in o["case"]["bodies"] for m in b if m["ty"] == "pc"}) > 1)
+    if not ctx.replay and (conflicting == 0 or conflicting == len(obs)):
+        raise core.MachineryError("vacuity: inputs with and without conflicting programs not both present")
 
     def nontrivial(o):
         return json.dumps(o["case"]["bodies"]) if o["case"]["bodies"] else None
